@@ -214,8 +214,47 @@ func ruleC19Order(p *Prog, a *Anchors, r *Report) {
 			}
 		}
 	}
-	if len(seen) < 2 {
-		r.Bad("sites", "-", "expected the two chain application sites (expression filter chain and filter tag); found %d", len(seen))
+	// the loop is left only when the chain is exhausted (at the header) or on an error
+	for _, cl := range loops {
+		name := p.FuncName(cl.f)
+		if !seen[name+cl.field] || cl.header == nil || seen["exit:"+name+cl.field] {
+			continue
+		}
+		seen["exit:"+name+cl.field] = true
+		fromHdr := ReachableBlocks(cl.header)
+		inLoop := map[*ssa.BasicBlock]bool{cl.header: true}
+		for b := range fromHdr {
+			if ReachableBlocks(b)[cl.header] {
+				inLoop[b] = true
+			}
+		}
+		for _, b := range cl.f.Blocks {
+			if !inLoop[b] || b == cl.header {
+				continue
+			}
+			for _, s := range b.Succs {
+				if inLoop[s] {
+					continue
+				}
+				key := name + ":loop-exit"
+				pos := p.InstrPos(b.Instrs[len(b.Instrs)-1])
+				if errorReturnsOnly(cl.f, s) {
+					r.OK(key, pos, "the chain loop is left early only with an error")
+				} else {
+					r.Bad(key, pos, "the chain loop over %s can be left before the last filter without an error: the remaining filters would be skipped", cl.field)
+				}
+			}
+		}
+	}
+	delete(seen, "")
+	nsites := 0
+	for k := range seen {
+		if !strings.HasPrefix(k, "exit:") {
+			nsites++
+		}
+	}
+	if nsites < 2 {
+		r.Bad("sites", "-", "expected the two chain application sites (expression filter chain and filter tag); found %d", nsites)
 	}
 }
 
